@@ -31,6 +31,10 @@ CLAIMED['C06'] = ('exploration', 'deterministic simulation: seeded multi-device 
     'Seeded search over 2-5 full stacks on one LocalLink: advertise (public/random own address, legacy/extended per node, drawn payloads), scan (active/passive), connect (public/random), data on a test fixed channel, disconnect by either/both sides, an incoming connection while an outgoing one is pending, two centrals racing for one advertiser, connect to a silent address; BR/EDR connect/transfer/disconnect. Oracle: the caller gets the connection to the requested address in the central role, the peer reports exactly one connection with matching addresses, no third party sees anything, handles live and distinct, payloads delivered exactly once in order to that connection only, disconnection reported on both sides, scan reports carry the advertiser data byte for byte. Sampling, not proof.',
     'Trusted: per-receiver FIFO air model; privacy off; scanning uses the legacy scan commands (the virtual controller implements no extended scan commands). Passive scanners are not required to see no scan responses.', 'DESIGN.md §5 C06')
 
+CLAIMED['C09'] = ('exploration', 'deterministic simulation: seeded open/close/refuse/data histories over two links sharing one ChannelManager, link cuts at air-message boundaries',
+    'Seeded search over histories of LE CoC / enhanced CoC / classic channel opens from either side, closes by either side, refused opens, data+drain, concurrent opens on two links and a link disconnection fired at a seeded message boundary of an open, close or drain, followed by reconnection and more opens. After every step: ChannelManager tables equal the model of open channels on every device and link, CIDs unique per link, next open succeeds, data flows; every awaited connect/disconnect/drain finishes. Sampling, not proof.',
+    'Trusted: both ends are Bumble here (peer CID allocation differing from Bumble is C07); link loss is a host-initiated disconnect by either side (the virtual controller has no supervision timeout).', 'DESIGN.md §5 C09')
+
 NOT_YET = {}
 
 
